@@ -57,9 +57,9 @@ Lemma xsub_ledger_ok : forall a b, ledger_ok view_xsub (XsubModel.xsub_step a b)
 Proof.
   intros a b. apply (ledger_ok_intro _ _ _ OwnPubSub.XsubInv); [apply OwnPubSub.xsub_proto_law|exact OwnPubSub.xsub_inv_init|reflexivity|apply OwnPubSub.xsub_close_drains].
 Qed.
-Lemma pair_ledger_ok : forall k fx fs, ledger_ok (VPair.view k) (PairGuard.pair_step_g k fx fs) PairModel.pair_init OwnPairBus.pair_ok OwnPairBus.pair_close_script.
+Lemma pair_ledger_ok : forall k fx fr fs, ledger_ok (VPair.view k) (PairGuard.pair_step_g k fx fr fs) PairModel.pair_init OwnPairBus.pair_ok OwnPairBus.pair_close_script.
 Proof.
-  intros k fx fs. apply (ledger_ok_intro _ _ _ OwnPairBus.pair_inv); [apply OwnPairBus.pair_proto_law|exact OwnPairBus.pair_inv_init|reflexivity|apply OwnPairBus.pair_close_drains].
+  intros k fx fr fs. apply (ledger_ok_intro _ _ _ OwnPairBus.pair_inv); [apply OwnPairBus.pair_proto_law|exact OwnPairBus.pair_inv_init|reflexivity|apply OwnPairBus.pair_close_drains].
 Qed.
 Lemma bus_ledger_ok : forall fixed keep raw, ledger_ok (VBus.view fixed keep) (BusModel.bus_step fixed) (BusModel.bus_init raw) BusProofs.op_ok OwnPairBus.bus_close_script.
 Proof.
